@@ -381,6 +381,9 @@ func wChainOps(r *rand.Rand, n int) []wOp {
 		for l := r.Intn(6); l > 0; l-- {
 			op.Regs = append(op.Regs, wReg{M: whx(methods[r.Intn(len(methods))]), Out: []string{"ok", "ok", "nf", "deact", "err"}[r.Intn(5)]})
 		}
+		if len(op.Regs) > 0 && r.Intn(3) != 0 { // mostly a method that IS registered (possibly several times, possibly case variants too)
+			op.M = op.Regs[r.Intn(len(op.Regs))].M
+		}
 		ops = append(ops, op)
 	}
 	return ops
